@@ -50,6 +50,41 @@ typedef struct
 
 } Skinny128CTRVec128Ctx_t;
 
+/* Decrement a specific column in an array of row vectors */
+STATIC_INLINE void skinny128_ctr_decrement
+    (SkinnyVector4x32_t *counter, unsigned column, unsigned dec)
+{
+    uint8_t *ctr = ((uint8_t *)counter) + column * 4;
+    uint8_t *ptr;
+    unsigned index;
+    for (index = 16; index > 0; ) {
+        --index;
+        ptr = ctr + (index & 0x0C) * 4;
+#if SKINNY_LITTLE_ENDIAN
+        ptr += index & 0x03;
+#else
+        ptr += 3 - (index & 0x03);
+#endif
+        dec = ptr[0] - dec;
+        ptr[0] = (uint8_t)dec;
+        dec = (dec >> 8) & 1;
+    }
+}
+
+/* Discard the unused keystream and rewind the counters so that the next
+   keystream block uses the first counter value that has not been consumed
+   at all, which is what the non-vectorized back end does */
+static void skinny128_ctr_vec128_reset_keystream(Skinny128CTRVec128Ctx_t *ctx)
+{
+    if (ctx->offset < SKINNY128_CTR_BLOCK_SIZE) {
+        unsigned unused = (SKINNY128_CTR_BLOCK_SIZE - ctx->offset) / SKINNY128_BLOCK_SIZE;
+        unsigned column;
+        for (column = 0; unused && column < 4; ++column)
+            skinny128_ctr_decrement(ctx->counter, column, unused);
+        ctx->offset = SKINNY128_CTR_BLOCK_SIZE;
+    }
+}
+
 static int skinny128_ctr_vec128_set_counter
     (Skinny128CTR_t *ctr, const void *counter, unsigned size);
 
@@ -95,7 +130,7 @@ static int skinny128_ctr_vec128_set_key
         return 0;
 
     /* Reset the keystream */
-    ctx->offset = SKINNY128_CTR_BLOCK_SIZE;
+    skinny128_ctr_vec128_reset_keystream(ctx);
     return 1;
 }
 
@@ -116,7 +151,7 @@ static int skinny128_ctr_vec128_set_tweaked_key
         return 0;
 
     /* Reset the keystream */
-    ctx->offset = SKINNY128_CTR_BLOCK_SIZE;
+    skinny128_ctr_vec128_reset_keystream(ctx);
     return 1;
 }
 
@@ -135,7 +170,7 @@ static int skinny128_ctr_vec128_set_tweak
         return 0;
 
     /* Reset the keystream */
-    ctx->offset = SKINNY128_CTR_BLOCK_SIZE;
+    skinny128_ctr_vec128_reset_keystream(ctx);
     return 1;
 }
 
